@@ -1,6 +1,8 @@
 use rscel_macro::dispatch;
 
 pub use methods::dispatch as get_day_of_week;
+#[cfg(feature = "verif_hooks")]
+pub use methods::verif_inner;
 
 #[dispatch]
 mod methods {
@@ -17,5 +19,11 @@ mod methods {
         Ok(get_adjusted_datetime(this, timezone)?
             .weekday()
             .number_from_sunday() as i64)
+    }
+
+    /// Forwarders to the typed overloads, for the external verification harness.
+    #[cfg(feature = "verif_hooks")]
+    pub mod verif_inner {
+        pub fn utc(this: chrono::DateTime<chrono::Utc>) -> i64 { super::get_day_of_week_zti(this) }
     }
 }
